@@ -30,6 +30,28 @@ def _rows(menu, k):
     return np.array(list(itertools.product(menu, repeat=k)), dtype=float).reshape(-1, k)
 
 
+def _dtype_variants(op, call, mats, ctx):
+    """The storage dtype of the weights is not part of the problem: integer-valued weights stored as int64 / int32 and the same weights
+    stored as float32 give the minimiser computed for the float64 copy (exactly for integers, to single precision for float32)."""
+    ints = [np.round(2 * np.asarray(m)).astype(np.int64) for m in mats]
+    try:
+        with np.errstate(all="ignore"):
+            ref_ = call(*[m.astype(float) for m in ints])
+        ref_ = ref_ if isinstance(ref_, tuple) else (ref_,)
+        out = []
+        for dt, tol in ((np.int64, 1e-12), (np.int32, 1e-12), (np.float32, 1e-5)):
+            with np.errstate(all="ignore"):
+                got = call(*[m.astype(dt) for m in ints])
+            got = got if isinstance(got, tuple) else (got,)
+            for a, b in zip(got, ref_):
+                if np.shape(a) != np.shape(b) or not np.allclose(np.asarray(a, dtype=float), b, rtol=tol, atol=tol, equal_nan=True):
+                    out.append(violation("result_depends_on_storage_dtype", dict(ctx, dtype=str(np.dtype(dt)), float64_result=b[:3], got=np.asarray(a)[:3]), op=op))
+                    break
+        return out[:1]
+    except Exception as e:  # noqa
+        return [violation("result_depends_on_storage_dtype", dict(ctx, error=repr(e)[:200]), op=op)]
+
+
 # ------------------------------------------------------------------ group lasso, feature rows
 def gl_rows(case):
     _, K, alpha, generic_seed = case
@@ -51,6 +73,7 @@ def gl_rows(case):
         v.append(violation("result_depends_on_memory_layout", {"K": K, "alpha": alpha}, op="linear_prox_grad"))
     if out.shape != W.shape:
         return {"v": [violation("shape", f"{out.shape} vs {W.shape}", op="linear_prox_grad")]}
+    v.extend(_dtype_variants("linear_prox_grad", lambda A: P.linear_prox_grad(A, alpha), [W], {"K": K, "alpha": alpha}))
     for i in range(len(W)):
         z, must_zero = ref.group_lasso_row(W[i], alpha)
         # also as a one-row matrix (d=1)
@@ -81,6 +104,9 @@ def gl_groups(case):
         mats = (rs.normal(size=(d, K)) * 1.5 for _ in range(60))
     for W in mats:
         n += 1
+        if n <= 3:
+            v.extend(_dtype_variants("group_linear_prox_grad", lambda A: P.group_linear_prox_grad([list(g) for g in part], A, alpha), [W + 0.5 * n],
+                                     {"groups": part, "alpha": alpha}))
         out = P.group_linear_prox_grad([list(g) for g in part], W.copy(), alpha)
         for g in part:
             z, must_zero = ref.group_lasso_row(W[list(g)].reshape(-1), alpha)
@@ -143,6 +169,8 @@ def hier_rows(case):
     keep = _in_scope(V, U, alpha)
     V, U = V[keep], U[keep]
     v, nt = _check_hier(P, V, U, alpha, M, "mlp_prox_grad", lambda a, b: P.mlp_prox_grad(a, b, alpha, M))
+    if len(V):
+        v.extend(_dtype_variants("mlp_prox_grad", lambda A, B: P.mlp_prox_grad(A, B, alpha, M), [V[:200], U[:200]], {"alpha": alpha, "M": M, "K": K, "h": h}))
     vF, _ = _check_hier(P, V, U, alpha, M, "mlp_prox_grad[fortran]", lambda a, b: P.mlp_prox_grad(np.asfortranarray(a), np.asfortranarray(b), alpha, M))
     v.extend(vF)
     # one-row calls (d=1 shape) on a deterministic subset
@@ -175,6 +203,9 @@ def hier_groups(case):
         if not all(_in_scope(a, b, alpha)[0] for a, b in zip(Vg, Ug)):
             continue
         n += 1
+        if n <= 3:
+            v.extend(_dtype_variants("group_mlp_prox_grad", lambda A, B: P.group_mlp_prox_grad(groups, A, B, alpha, M), [Ws + 0.5 * n, W1 - 0.5 * n],
+                                     {"groups": part, "alpha": alpha, "M": M}))
         with np.errstate(all="ignore"):
             bs, th = P.group_mlp_prox_grad(groups, Ws.copy(), W1.copy(), alpha, M)
         for g, a, b in zip(groups, Vg, Ug):
